@@ -122,6 +122,9 @@ func runC10Schnorr(c c10Schnorr) ev.Outcome {
 		if !pf.Verify(sessArg(c.Sess, c.SessC), X) {
 			return fail("verify", "honest Schnorr proof rejected (x class %s)", c.XC)
 		}
+		if !pf.Verify(sessArg(c.Sess, c.SessC), X) {
+			return fail("verify-twice", "the same proof object is rejected when verified a second time")
+		}
 		// through the wire messages that carry it
 		var back *schnorr.ZKProof
 		if c.Curve == "secp256k1" {
@@ -187,6 +190,9 @@ func runC10Schnorr(c c10Schnorr) ev.Outcome {
 	if !pf.Verify(sessArg(c.Sess, c.SessC), V, R) {
 		return fail("verify", "honest Schnorr-V proof rejected")
 	}
+	if !pf.Verify(sessArg(c.Sess, c.SessC), V, R) {
+		return fail("verify-twice", "the same proof object is rejected when verified a second time")
+	}
 	if c.Curve == "secp256k1" {
 		m := ecsigning.NewSignRound6Message(dummyFrom(), []*big.Int{one, two, big.NewInt(3), big.NewInt(4), big.NewInt(5)}, &schnorr.ZKProof{Alpha: pf.Alpha, T: pf.T}, pf)
 		bz, _, err := m.WireBytes()
@@ -221,6 +227,10 @@ type c10DLN struct {
 	X    H      // fresh witness
 	XC   string
 	Wire string // "serialize" | "message"
+	// Short: the proof is searched (seeded prover randomness, 512-bit parameters) so that its Fiat-Shamir challenge
+	// digest has a leading zero byte (1 proof in 256 by chance)
+	Short     bool `json:",omitempty"`
+	ShortSeed int  `json:",omitempty"`
 }
 
 func genC10DLN(t *rapid.T) c10DLN {
@@ -233,11 +243,16 @@ func genC10DLN(t *rapid.T) c10DLN {
 		x, cls = big.NewInt(2), "2"
 	}
 	c.X, c.XC = hx(x), cls
+	c.Short = c.Dir != "fresh" && c.Wire == "serialize" && rapid.IntRange(0, 2).Draw(t, "short") == 0
+	c.ShortSeed = rapid.IntRange(0, 1<<20).Draw(t, "shortSeed")
 	return c
 }
 
 func runC10DLN(c c10DLN) ev.Outcome {
 	pp := preParams()[c.Set]
+	if c.Short {
+		pp = weakPreParams(512)
+	}
 	out := ev.Outcome{Label: fmt.Sprintf("dln set=%d dir=%s wire=%s", c.Set, c.Dir, c.Wire), Nontrivial: true}
 	fail := func(sig, f string, a ...interface{}) ev.Outcome {
 		out.Err, out.Sig = fmt.Errorf(f, a...), sig
@@ -259,8 +274,25 @@ func runC10DLN(c c10DLN) ev.Outcome {
 		}
 	}
 	pf := dlnproof.NewDLNProof(h1, h2, x, pp.P, pp.Q, pp.NTildei, rand.Reader)
+	if c.Short {
+		found := false
+		for i := 0; i < 4000 && !found; i++ {
+			pf = dlnproof.NewDLNProof(h1, h2, x, pp.P, pp.Q, pp.NTildei, newDRBG(fmt.Sprintf("c10-dln-short/%d/%d", c.ShortSeed, i)))
+			ch := common.SHA512_256i(append([]*big.Int{h1, h2, pp.NTildei}, pf.Alpha[:]...)...) // the challenge as the library derives it
+			found = ch.BitLen() <= 248
+		}
+		if found {
+			out.Label += " challenge<32B"
+		}
+	}
 	if !pf.Verify(h1, h2, pp.NTildei) {
 		return fail("verify", "honest DLN proof rejected")
+	}
+	if !pf.Verify(h1, h2, pp.NTildei) {
+		return fail("verify-twice", "the same proof object is rejected when verified a second time")
+	}
+	if !pf.Verify(h1, h2, pp.NTildei) {
+		return fail("verify-twice", "the same DLN proof object is rejected when verified a second time")
 	}
 	var back *dlnproof.Proof
 	var err error
@@ -331,10 +363,14 @@ func genC10Key(t *rapid.T) c10Key {
 	return c
 }
 
-func runC10Key(c c10Key) ev.Outcome {
+func runC10Key(c c10Key) (out ev.Outcome) {
 	pp := preParams()[c.Set]
 	vp := preParams()[c.VSet]
-	out := ev.Outcome{Label: fmt.Sprintf("%s set=%d", c.Sys, c.Set), Nontrivial: true}
+	var watch bigWatch // the shared parameters are read by many verifications (in the protocols: concurrently)
+	defer func() { watch.finish(&out, "proof verification") }()
+	watch.add("prover-params", pp.PaillierSK.N, pp.NTildei, pp.H1i, pp.H2i)
+	watch.add("verifier-params", vp.NTildei, vp.H1i, vp.H2i)
+	out = ev.Outcome{Label: fmt.Sprintf("%s set=%d", c.Sys, c.Set), Nontrivial: true}
 	fail := func(sig, f string, a ...interface{}) ev.Outcome {
 		out.Err, out.Sig = fmt.Errorf(f, a...), sig
 		return out
@@ -347,9 +383,21 @@ func runC10Key(c c10Key) ev.Outcome {
 		pub := crypto.ScalarBaseMult(tss.S256(), c.PubK.Big())
 		k := c.K.Big()
 		pf := pp.PaillierSK.Proof(k, pub)
+		var before [len(pf)]*big.Int
+		for i := range pf {
+			before[i] = new(big.Int).Set(pf[i])
+		}
 		ok, err := pf.Verify(pp.PaillierSK.N, k, pub)
 		if err != nil || !ok {
 			return fail("verify", "honest Paillier key proof rejected: ok=%v err=%v", ok, err)
+		}
+		for i := range pf {
+			if pf[i].Cmp(before[i]) != 0 {
+				return fail("operand-modified", "Verify changed element %d of the proof it was given", i)
+			}
+		}
+		if ok2, err2 := pf.Verify(pp.PaillierSK.N, k, pub); err2 != nil || !ok2 {
+			return fail("verify-twice", "the same Paillier key proof object is rejected when verified a second time: ok=%v err=%v", ok2, err2)
 		}
 		m := eckeygen.NewKGRound3Message(dummyFrom(), pf)
 		bz, _, err := m.WireBytes()
@@ -374,6 +422,9 @@ func runC10Key(c c10Key) ev.Outcome {
 		if !pf.Verify(sessArg(c.Sess, c.SessC), pp.PaillierSK.N) {
 			return fail("verify", "honest mod proof rejected")
 		}
+		if !pf.Verify(sessArg(c.Sess, c.SessC), pp.PaillierSK.N) {
+			return fail("verify-twice", "the same proof object is rejected when verified a second time")
+		}
 		bzs := pf.Bytes()
 		back, err := modproof.NewProofFromBytes(bzs[:])
 		if err != nil {
@@ -395,6 +446,9 @@ func runC10Key(c c10Key) ev.Outcome {
 		}
 		if !pf.Verify(sessArg(c.Sess, c.SessC), cv.EC, pp.PaillierSK.N, vp.NTildei, vp.H1i, vp.H2i) {
 			return fail("verify", "honest fac proof rejected")
+		}
+		if !pf.Verify(sessArg(c.Sess, c.SessC), cv.EC, pp.PaillierSK.N, vp.NTildei, vp.H1i, vp.H2i) {
+			return fail("verify-twice", "the same proof object is rejected when verified a second time")
 		}
 		bzs := pf.Bytes()
 		back, err := facproof.NewProofFromBytes(bzs[:])
@@ -452,11 +506,15 @@ func genC10MtA(t *rapid.T) c10MtA {
 	return c
 }
 
-func runC10MtA(c c10MtA) ev.Outcome {
+func runC10MtA(c c10MtA) (out ev.Outcome) {
 	cv := getCurve(c.Curve)
 	ap, vp := preParams()[c.ASet], preParams()[c.VSet]
 	pk := &ap.PaillierSK.PublicKey
-	out := ev.Outcome{Nontrivial: true}
+	out = ev.Outcome{Nontrivial: true}
+	var watch bigWatch
+	defer func() { watch.finish(&out, "proof verification") }()
+	watch.add("N", pk.N)
+	watch.add("verifier-params", vp.NTildei, vp.H1i, vp.H2i)
 	fail := func(sig, f string, a ...interface{}) ev.Outcome {
 		out.Err, out.Sig = fmt.Errorf(f, a...), sig
 		return out
@@ -482,6 +540,9 @@ func runC10MtA(c c10MtA) ev.Outcome {
 		}
 		if !pf.Verify(cv.EC, pk, vp.NTildei, vp.H1i, vp.H2i, cA) {
 			return fail("verify", "honest range proof rejected (m class %s)", c.MC)
+		}
+		if !pf.Verify(cv.EC, pk, vp.NTildei, vp.H1i, vp.H2i, cA) {
+			return fail("verify-twice", "the same proof object is rejected when verified a second time")
 		}
 		bzs := pf.Bytes()
 		back, err := mta.RangeProofAliceFromBytes(bzs[:])
@@ -525,6 +586,9 @@ func runC10MtA(c c10MtA) ev.Outcome {
 			if !pf.Verify(sessArg(c.Sess, c.SessC), cv.EC, pk, vp.NTildei, vp.H1i, vp.H2i, cA, c2) {
 				return fail("verify", "honest Bob proof rejected (x %s, y %s)", c.XC, c.YC)
 			}
+			if !pf.Verify(sessArg(c.Sess, c.SessC), cv.EC, pk, vp.NTildei, vp.H1i, vp.H2i, cA, c2) {
+				return fail("verify-twice", "the same proof object is rejected when verified a second time")
+			}
 			bzs := pf.Bytes()
 			back, err := mta.ProofBobFromBytes(bzs[:])
 			if err != nil || !back.Verify(vsess, cv.EC, pk, vp.NTildei, vp.H1i, vp.H2i, cA, c2) {
@@ -538,6 +602,9 @@ func runC10MtA(c c10MtA) ev.Outcome {
 			}
 			if !pf.Verify(sessArg(c.Sess, c.SessC), cv.EC, pk, vp.NTildei, vp.H1i, vp.H2i, cA, c2, X) {
 				return fail("verify", "honest Bob-WC proof rejected (x %s, y %s)", c.XC, c.YC)
+			}
+			if !pf.Verify(sessArg(c.Sess, c.SessC), cv.EC, pk, vp.NTildei, vp.H1i, vp.H2i, cA, c2, X) {
+				return fail("verify-twice", "the same proof object is rejected when verified a second time")
 			}
 			bzs := pf.Bytes()
 			back, err := mta.ProofBobWCFromBytes(cv.EC, bzs[:])
